@@ -317,7 +317,7 @@ def main():
                "np.random.rand(2048) -> fresh array of 2048 unconstrained values"] + wmeta.get("stubs", []),
         assumptions=["a draw uniform on [0,1) is below t with probability t (t in [0,1]) -- the only probabilistic fact used", "linearity of expectation extends one-step unbiasedness to any number of steps below the ceiling (prose)",
                      "the composition of the one-iteration lemma into the contract for v iterations is an induction (prose)"] + wmeta.get("assumptions", []),
-        outside=["comparison with the exact Markov-chain distribution of the estimate", "statistical quality of numpy's generator", "float rounding of base**x", "that two different sketches' batches are independent"] + wmeta.get("outside", []),
+        outside=["comparison with the exact Markov-chain distribution of the estimate", "statistical quality of numpy's generator", "float rounding of base**x", "statistical independence of two sketches' pools beyond 'each pool generator is freshly seeded' (decided)"] + wmeta.get("outside", []),
         explanation="law of the log counters decomposed into solver-decidable lemmas on the real kernels: lower-bound invariant, increment rule, decoding formula, one-step unbiasedness, draw freshness, pointer threading",
         technique="symbolic execution of Numba typed IR + z3 (QF_BV with callee contract; QF_FPBV lemma; NRA real-idealised with instantiated pow laws); CrossHair for the class glue")
 
